@@ -397,7 +397,7 @@ def wire(ctx):
     """'...through rekey, refresh and serialization': flavour tags and hints round-trip."""
     from . import c13
     c13.restricted(ctx, r'(core::RightSecretKey|core::RightPublicKey|core::Encapsulations|dimension::Attribute|core::XEnc)$',
-                   [c13.agree, c13.fields])
+                   [c13.agree, c13.fields, c13.enum_codec_inverse])
 
 
 @rule('C11', 'refresh-preserves-flavour', configs=('default', 'p256'))
